@@ -1,6 +1,6 @@
 (* C07/A_Proofs.v — part A (core level): property-level corollaries. *)
 From Coq Require Import List NArith ZArith Bool Lia.
-From BLB Require Import Raft.Core Raft.Wire Raft.Legit Raft.NodeProofs C07.A_Witness C07.A_Repaired.
+From BLB Require Import Raft.Core Raft.Wire Raft.Legit Raft.NodeProofs Raft.NodeElect Raft.NodeMono C07.A_Witness C07.A_Repaired.
 Import ListNotations.
 Open Scope N_scope.
 
@@ -25,3 +25,40 @@ Lemma f10_witness_ok :
   legit_schedule f10_witness = true /\ observes [666%Z; Z.of_N F_GAP] f10_witness = true /\
   existsb (fun op => match op with 10%Z :: _ => true | _ => false end) f10_witness = true.
 Proof. vm_compute. repeat split; reflexivity. Qed.
+
+Lemma acts_after_persist_lemma :
+  forall s ev st s', n_msgs s = [] -> run_event s ev = Ret (st, s') ->
+    Forall (fun m => m_term m = p_term (n_p s') /\ m_from m = n_id s' /\
+                     (m_body m = VoteResp true -> p_vote (n_p s') = m_to m)) (n_msgs s').
+Proof. intros s ev st s' H R. destruct (run_event_sum s ev st s' H R) as [_ [M _]]. exact M. Qed.
+
+Lemma restart_repaired_keeps_term_and_vote_lemma :
+  forall id cfg p s', new_core_fixed id cfg p = Ret s' ->
+    p_term p <= p_term (n_p s') /\ (p_term (n_p s') = p_term p -> p_vote p <> 0 -> p_vote (n_p s') = p_vote p).
+Proof.
+  intros id cfg p s' H. pose proof (new_core_fixed_pext id cfg p) as P. rewrite H in P.
+  destruct P as [A [B _]]. split; [exact A|]. intros Ht Hv. destruct (B Ht); congruence.
+Qed.
+
+Lemma handler_equals_its_durable_mutations_lemma :
+  forall s ev st s', ev <> ERestart -> n_muts s = [] -> run_event s ev = Ret (st, s') ->
+    n_p s' = replay (n_p s) (n_muts s').
+Proof. intros s ev st s' Hne Hm H. destruct (run_event_mono s ev st s' Hne H) as [_ B]. exact (B Hm). Qed.
+
+(* the state-level face of F10: right after the crash of the witness (its first 31 ops) node 3 has a commit index beyond
+   its last persisted index and a snapshot ahead of its log *)
+Definition f10_prefix : list (list Z) := firstn 31 f10_witness.
+
+Lemma f10_state_ok :
+  legit_schedule f10_prefix = true /\
+  exists c s, final_state f10_prefix = Some c /\ get_node 3 c = Some s /\
+              last_index (n_p s) < n_commit s /\ ~ storage_ok (n_p s).
+Proof.
+  split; [vm_compute; reflexivity|].
+  destruct (final_state f10_prefix) as [c |] eqn:E; [| vm_compute in E; discriminate].
+  destruct (get_node 3 c) as [s |] eqn:G; [| vm_compute in E; inversion E; subst; vm_compute in G; discriminate].
+  exists c, s. split; [reflexivity|]. split; [exact G|].
+  vm_compute in E. inversion E. subst c. vm_compute in G. inversion G. subst s.
+  split; [vm_compute; reflexivity|].
+  unfold storage_ok. vm_compute. intros [H _]. apply H. reflexivity.
+Qed.
